@@ -38,18 +38,19 @@ def run(chk):
     r7(chk, prog)
     r4(chk, prog)
     r5(chk, prog, tables)
-    from . import c15
-    c15.r_safety(chk, prog, "C04.R8")       # the level stack is never indexed outside its allocation (automaton, shared with C15)
-    # the buffers and containers the parser fills: every write inside the allocation (shared with C19 / C07 / C06)
-    from . import c19, c07, c06
-    mp, ma, ml = prog.module("printbuf.c"), prog.module("arraylist.c"), prog.module("linkhash.c")
-    chk.require(mp is not None and ma is not None and ml is not None, "printbuf.c / arraylist.c / linkhash.c not in the build")
-    c19.r_extend(chk, prog, mp)
-    c19.r_writers(chk, prog, mp)
-    c19.r_macro(chk, prog)
-    c07.r_expand(chk, prog, ma)
-    c07.r_functions(chk, prog, ma)
-    c06.r5(chk, prog, ml)
+    with chk.shared():
+        from . import c15
+        c15.r_safety(chk, prog, "C04.R8")       # the level stack is never indexed outside its allocation (automaton, shared with C15)
+        # the buffers and containers the parser fills: every write inside the allocation (shared with C19 / C07 / C06)
+        from . import c19, c07, c06
+        mp, ma, ml = prog.module("printbuf.c"), prog.module("arraylist.c"), prog.module("linkhash.c")
+        chk.require(mp is not None and ma is not None and ml is not None, "printbuf.c / arraylist.c / linkhash.c not in the build")
+        c19.r_extend(chk, prog, mp)
+        c19.r_writers(chk, prog, mp)
+        c19.r_macro(chk, prog)
+        c07.r_expand(chk, prog, ma)
+        c07.r_functions(chk, prog, ma)
+        c06.r5(chk, prog, ml)
     chk.undecided_clauses += [
         "absence of undefined behaviour inside libc calls; the node constructors and json_object_put (C05) are summarised",
         "sanitizer-level memory safety of everything reachable: only the clauses listed are decided",
